@@ -8,6 +8,8 @@ COQ_TIMEOUT ?= 3000
 VERIF_REPO ?= /repo
 SFX := $(shell echo $(VERIF_REPO) | md5sum | cut -c1-8)
 JOBS ?= 16
+# address-space cap per coqc process (KB): a runaway elaboration must fail, not eat the machine
+COQ_MEM_KB ?= 12000000
 
 .PHONY: setup coq coq-only coqproject harness harness-all clean check-clean coqchk
 
@@ -29,12 +31,12 @@ coqproject:
 # never compile the same file twice at once
 coq: coqproject
 	@mkdir -p build
-	cd coq && flock ../build/coq.lock timeout $(COQ_TIMEOUT) $(MAKE) $(MKFLAGS) -f Makefile.coq -j$(JOBS) --no-print-directory
+	cd coq && ulimit -v $(COQ_MEM_KB) && flock ../build/coq.lock timeout $(COQ_TIMEOUT) $(MAKE) $(MKFLAGS) -f Makefile.coq -j$(JOBS) --no-print-directory
 
 # build selected .vo targets only: make coq-only T="Props/C13.vo Run/C13.vo"
 coq-only: coqproject
 	@mkdir -p build
-	cd coq && flock ../build/coq.lock timeout $(COQ_TIMEOUT) $(MAKE) -f Makefile.coq -j$(JOBS) --no-print-directory $(T)
+	cd coq && ulimit -v $(COQ_MEM_KB) && flock ../build/coq.lock timeout $(COQ_TIMEOUT) $(MAKE) -f Makefile.coq -j$(JOBS) --no-print-directory $(T)
 
 # one binary per property (harness/<pid>/), so a broken runner of one property
 # cannot break the build of another: make harness P=c13
